@@ -13,6 +13,7 @@ mod stats;
 mod robust;
 mod conv;
 mod mc;
+mod shape;
 mod diag;
 mod poison;
 
@@ -76,6 +77,7 @@ fn main() {
         "robust" => robust::stream(&mut out, seed, thorough),
         "conv" => conv::stream(&mut out, seed, thorough),
         "mc" => mc::stream(&mut out, seed, thorough),
+        "shape" => shape::stream(&mut out, seed, thorough),
         _ => {
             eprintln!("unknown stream {}", stream);
             std::process::exit(2);
